@@ -12,11 +12,12 @@ answer: `attempts=N result=ok|err:cls:code db=k=v,k=v` -/
 def clsOf : String → Option ErrClass
   | "op" => some .operational | "int" => some .internal | "integ" => some .integrity | "prog" => some .programming
   | "data" => some .data | "nosup" => some .notSupported | "iface" => some .interface | "other" => some .other
+  | "base" => some .base
   | _ => none
 
 def clsName : ErrClass → String
   | .operational => "op" | .internal => "int" | .integrity => "integ" | .programming => "prog"
-  | .data => "data" | .notSupported => "nosup" | .interface => "iface" | .other => "other"
+  | .data => "data" | .notSupported => "nosup" | .interface => "iface" | .other => "other" | .base => "base"
 
 def parseKind (kind k d : String) : Option KV.Stmt :=
   match kind with
